@@ -52,6 +52,7 @@ CATALOGUE = {
   (S, None, 'core/_files.py', "        if not self.isopen():\n            return\n        try:\n            return NetCDFFile.close(self)", "        if self.isopen():\n            return NetCDFFile.close(self)\n        try:\n            pass"),
  ],
  'C06': [
+  (F, 'R-WHEREAPPLY', 'core/_files.py', "            maskdims = tuple(dims)", "            maskdims = dims"),
   (F, 'R-OPTABLE', 'core/_files.py', "pncbo(op='<', ifile1", "pncbo(op='>', ifile1"),
   (F, 'R-OPTABLE', 'core/_files.py', "return pncbo(op='-', ifile1=self, ifile2=lhs", "return pncbo(op='-', ifile1=lhs, ifile2=self"),
   (F, 'R-MASKTABLE', 'core/_files.py', "vals = np.ma.masked_less(vals, less)", "vals = np.ma.masked_less_equal(vals, less)"),
@@ -110,6 +111,7 @@ CATALOGUE = {
   (S, None, 'cmaqfiles/_ioapi.py', "if lidx[-1] < (nlvls - 1):", "if lidx[-1] <= (nlvls - 2):"),
  ],
  'C12': [
+  (F, 'R-REFTIME', 'core/_files.py', "                    refdate = refdate.astimezone(utc)\n", ""),
   (F, 'R-REFTIME', 'core/_files.py', "yearlike, refdate.month, refdate.day, refdate.hour,\n                        refdate.minute, refdate.second, tzinfo=utc)", "yearlike, refdate.month, refdate.day, tzinfo=utc)"),
   (F, 'R-UNITTABLE', 'core/_files.py', "'seconds': yeardays * 24 * 3600}", "'seconds': yeardays * 24 * 60}"),
   (F, 'R-CALTABLE', 'core/_files.py', "'366_day': 1972}", "'366_day': 1970}"),
